@@ -135,8 +135,18 @@ func replayOnRealCode(E *Engine, r *Result, base string) *replayResult {
 		rep.Log += "  (the model's pre-state, truncated to the probed elements, does not satisfy the precondition on the real types)\n"
 		return rep
 	}
-	if strings.Contains(log, "REPLAY-PANIC") || strings.Contains(log, "REPLAY-CLAUSE-FALSE") || strings.Contains(log, "fatal error") {
+	// a panic of the real code reproduces a safety obligation (bounds, nil, division, failed assertion, callee
+	// precondition); for a functional obligation only the violated clause evaluating false does: a panic there just
+	// means the model's pre-state (which the function's preconditions do not exclude) is not one the clause is about
+	safety := map[string]bool{"bounds": true, "nil": true, "div": true, "assert": true, "typeassert": true, "pre": true, "make": true}
+	if strings.Contains(log, "REPLAY-CLAUSE-FALSE") {
 		rep.Reproduced = true
+	} else if strings.Contains(log, "REPLAY-PANIC") || strings.Contains(log, "fatal error") {
+		if safety[r.O.Kind] {
+			rep.Reproduced = true
+		} else {
+			rep.Log += "  (the real code panicked on the model's pre-state before the clause could be evaluated: not counted as a reproduction of this " + r.O.Kind + " obligation)\n"
+		}
 	}
 	return rep
 }
